@@ -728,6 +728,9 @@ impl<'a> SkiplistIterator<'a> {
 
 	/// Move to last entry
 	pub fn last(&mut self) {
+		// A previous forward pass may have cached the node at/after the upper
+		// bound; it must not make the backward walk below stop early.
+		self.upper_node = std::ptr::null_mut();
 		self.nd = self.list.get_prev(self.list.tail, 0);
 		if self.nd == self.list.head || self.nd == self.lower_node {
 			return;
